@@ -175,7 +175,14 @@ def data_matrix(draw, n, p, method, kind=None):
         m = draw(st.lists(st.lists(el, min_size=p, max_size=p), min_size=n, max_size=n))
         return m, kind
     kind = kind or draw(gen.value_kind())
-    return draw(gen.matrix(n, p, kind=kind)), kind
+    m = draw(gen.matrix(n, p, kind=kind))
+    if method in ('euclidean', 'mahalanobis', 'crossnobis'):
+        # measurements in small / large units: an exact power-of-two factor (the Gram-form
+        # tolerances scale with |x|^2, so the oracle stays a proven bound)
+        e = draw(st.sampled_from([0, 0, 0, 0, -30, 12]))   # (+12: integer variants stay far from int64 overflow)
+        if e:
+            m = [[v * 2.0 ** e for v in row] for row in m]
+    return m, kind
 
 
 def all_integral(m):
